@@ -66,6 +66,18 @@ def run(ctx):
     ptraces = P.record(jobs)
     ctx.cov["replayed_cases"] += len(ptraces)
     P.validate(ctx, ptraces, "loaddet", "C17")
+    # sessions: the file is rewritten (same name) between two runs of the same pipeline in one process
+    partial = dict(pcases[0]["stored"], photon=-1, signal=-1, scene=-1)
+    other = {b: (v + 20 if v >= 0 else v) for b, v in pcases[0]["stored"].items()}
+    sjobs = []
+    for k, c in enumerate(pcases):
+        nxt = other if c["stored"] != other and k % 2 == 0 else partial
+        sjobs.append(dict(cfg=c, real=0, kind="ccd",
+                          ops=[["run"], ["rewrite", nxt], ["run"], ["rewrite", c["stored"]], ["peek", "repr"], ["run"]]))
+    straces = check.pmap(P._session_job, sjobs, chunksize=4)
+    ctx.cov["replayed_cases"] += len(straces)
+    ctx.notes["rewrite_sessions"] = len(straces)
+    P.validate(ctx, straces, "rewrite", "C17")
     ctx.assumptions += ["containers are compared through the projection (levels, cluster table fields, wavelength coordinate, "
                         "scene and data tokens), never with pyxel's ==", "only the ASDF backend is available here"]
 
